@@ -9,10 +9,12 @@ CONFIG = worlda.base_config(
     "mailboxes, with an orderly restart (cancel-style shutdown, or true idle expiry: all sessions log out and the virtual clock runs >1800 s) inserted at "
     "seeded positions - in the thorough tier after every op - sometimes with an external delivery while the server is down. The observer's "
     "LIST, LSUB, and per mailbox SELECT codes, STATUS and UID FETCH 1:* (FLAGS) before shutdown are compared with those after relaunch. "
-    "non-trivial = a restart happened after >=1 mutation; distinct = op signatures",
+    "In 40% of the programs the shutdown arrives while a command (EXPUNGE, CLOSE, MOVE, COPY, STORE, APPEND, DELETE, RENAME, CREATE) is in flight, at "
+    "its k-th storage event: afterwards every listed mailbox selects, surviving messages keep their UIDs under an unchanged UIDVALIDITY, no UID names "
+    "another message, and a second restart changes nothing. non-trivial = a restart happened after >=1 mutation; distinct = op signatures",
     level_text="before/after observer transcripts around real shutdown() and real start-up scan of the per-user server on the same directory and database, over "
     "seeded histories; exploration.",
-    expected_probes=["idle_expiry_exit"],
+    expected_probes=["idle_expiry_exit", "shutdown_with_command_in_flight"],
     wall=90,
 )
 
@@ -43,6 +45,26 @@ def post(prog, r, tier, prof):
     for op in ops:
         if op.get("op") == "restart" and r.random() < 0.3:
             op["while_down"] = [{"actor": "agent", "op": "deliver", "mbox": r.choice(prof["mailboxes"]), "count": r.choice((1, 2)), "unseen": r.random() < 0.7}]
+    if r.random() < 0.4:
+        # the shutdown arrives while a command is in flight: the op in front of a restart becomes its victim
+        INFLIGHT = ("expunge", "close", "move", "copy", "store", "append", "delete", "rename", "create")
+        out = []
+        for op in ops:
+            if op.get("op") == "restart" and out and out[-1].get("s") and out[-1].get("op") in INFLIGHT and "while_down" not in op and r.random() < 0.7:
+                victim = out.pop()
+                op["inflight"] = victim
+                op["at_event"] = r.choice((1, 1, 2, 2, 3, 4, 5, 6, 8, 10, 14, 20))
+                op["kind"] = "cancel"
+                op["drop_after"] = r.choice((0.0, 0.0, 0.001, 0.01, 0.05, 0.3))
+            out.append(op)
+        ops = out
+        if not any(op.get("inflight") for op in ops):
+            # make one: EXPUNGE of flagged messages cut short
+            s0 = prog["sessions"][0]["id"] if prog.get("sessions") else None
+            if s0 is not None:
+                ops.append({"s": s0, "op": "select", "mbox": prof["mailboxes"][0], "examine": False})
+                ops.append({"s": s0, "op": "store", "uid": False, "set": {"all": True}, "how": "+", "flags": ["\\Deleted"], "silent": True})
+                ops.append({"actor": "life", "op": "restart", "kind": "cancel", "at_event": r.choice((1, 2, 3, 4, 6, 9)), "drop_after": r.choice((0.0, 0.001, 0.02)), "inflight": {"s": s0, "op": "expunge"}})
     if not any(op.get("op") == "restart" for op in ops):
         ops.insert(r.randint(0, len(ops)), {"actor": "life", "op": "restart", "kind": r.choice(("cancel", "expire"))})
     prog["ops"] = ops
